@@ -177,8 +177,8 @@ JOBS = [
 
 TRUSTED_BASE = [
     'cbmc 6.11.0 / goto-instrument --dfcc / minisat2; IEEE-754 binary64 semantics of cbmc equal those of the compiled code (x86-64 SSE2, no -ffast-math)',
-    'extraction rules R1..R20 of vlib/cxx2c.py preserve the meaning of the C++ constructs they rewrite (generated TU kept in out/tu, sha256 in evidence)',
-    'shim/libm_models.h: exact models of remainder/remquo (by 360 and 90), ldexp, pow(10,k), sqrt(1/2), sqrt(3); range-only models of sin, cos, atan2, hypot, sqrt; other libm functions uninterpreted',
+    'extraction rules R1..R21c of vlib/cxx2c.py / vlib/tu.py preserve the meaning of the C++ constructs they rewrite; ghost captures only add assignments to ghost globals (generated TU kept in out/tu, sha256 in evidence; rules applied per function under extraction_rules)',
+    'shim/libm_models.h: exact models of remainder/remquo (by 720, 360 and 90; |x| < 2^52), ldexp, pow(10,k), sqrt(1/2), sqrt(3); range-only models of sin, cos, atan2, hypot, sqrt; other libm functions uninterpreted (deterministic); conformance-tested against glibc by tests/libm_conformance.c in setup.sh',
     'shim/verif_shim.h: std::string modelled as a buffer of VERIF_STRCAP bytes with explicit length; libstdc++ number parsing/printing not modelled',
     'message expressions of throw GeographicErr(...) are dropped by rule R7 (message text is never verified)',
 ]
